@@ -45,7 +45,7 @@ WORLDS = {
 # sessions per quick run (tuned to roughly a minute on 16 cores)
 QUICK_SESSIONS = {
     'C01': 24000, 'C02': 10000, 'C03': 28000, 'C04': 18000, 'C05': 36000, 'C08': 3200, 'C09': 1400, 'C10': 2600,
-    'C11': 18000, 'C12': 16000, 'C13': 16000, 'C14': 10000, 'C15': 10000, 'C16': 36000, 'C17': 28000, 'C19': 20000, 'C20': 10000,
+    'C11': 18000, 'C12': 16000, 'C13': 16000, 'C14': 10000, 'C15': 10000, 'C16': 36000, 'C17': 28000, 'C19': 20000, 'C20': 7000,
 }
 CHUNK = {'tn': 8, 'gr': 50, 'kr': 40}
 
